@@ -671,6 +671,128 @@ class Fn:
                     out.add(("call", callee))
         return out
 
+    def origins_precise(self, local, pend=(), limit=400):
+        """what the value `local.pend` is, component-wise: the set of ("call", bb) / ("param", n) / ("const", v) it is copied
+        from, following moves, references, aggregates and projections field by field (a tuple built from two call results
+        and taken apart again gives each binding its own call), through `?`, unwrap and the conversion adaptors. Where a
+        step cannot be matched field by field all operands are followed (never fewer origins than the plain walk)."""
+        sdefs, cdefs = collections.defaultdict(list), collections.defaultdict(list)
+        for bi, b in enumerate(self.blocks):
+            for s in b["stmts"]:
+                sdefs[s["dst"][0]].append(s)
+            t = b["term"]
+            if t["t"] == "call" and t.get("dst"):
+                cdefs[t["dst"][0]].append((bi, t))
+
+        def norm(projs):
+            out = []
+            for pe in projs:
+                if pe == "*":
+                    continue
+                if isinstance(pe, str) and (pe.startswith(".") or pe.startswith("@")):
+                    out.append(pe.split(":")[0])
+                else:
+                    out.append(str(pe))
+            return tuple(out)
+
+        def wrap(l):
+            ty = self.locals[l] if l < len(self.locals) else ""
+            ty = ty.lstrip("&").replace("mut ", "").strip()
+            if ty.startswith("std::result::Result"):
+                return ("@Ok", ".0")
+            if ty.startswith("std::option::Option"):
+                return ("@Some", ".0")
+            return None
+        out, seen = set(), set()
+        work = [(local, tuple(pend))]
+        while work and len(seen) < limit:
+            l, pd = work.pop()
+            if (l, pd) in seen or l is None:
+                continue
+            seen.add((l, pd))
+            if not sdefs.get(l) and not cdefs.get(l):
+                if 1 <= l <= self.nargs:
+                    out.add(("param", l))
+                continue
+
+            def operand(o, rest):
+                if op_local(o) is not None:
+                    pl = o.get("c") or o.get("m")
+                    work.append((pl[0], norm(pl[1:]) + tuple(rest)))
+                elif op_const(o) is not None and not rest:
+                    out.add(("const", op_const(o).get("v")))
+            for s in sdefs.get(l, ()):
+                dp = norm(s["dst"][1:])
+                if dp:
+                    if pd[:len(dp)] == dp:
+                        rest = pd[len(dp):]
+                    elif not pd:
+                        rest = ()
+                    else:
+                        continue
+                else:
+                    rest = pd
+                rv = s["rv"]
+                r = rv.get("r")
+                ops = rv.get("o") if isinstance(rv.get("o"), list) else []
+                if r in ("use", "cast"):
+                    for o in ops:
+                        operand(o, rest)
+                elif r in ("ref", "rawptr"):
+                    work.append((rv["p"][0], norm(rv["p"][1:]) + tuple(rest)))
+                elif r == "agg":
+                    fields = rv.get("fields")
+                    if rv.get("akind") == "tuple" or rv.get("akind") == "closure" or fields is None:
+                        if rest and re.fullmatch(r"\.\d+", rest[0]) and int(rest[0][1:]) < len(ops):
+                            operand(ops[int(rest[0][1:])], rest[1:])
+                        else:
+                            for o in ops:
+                                operand(o, ())
+                    else:
+                        var = rv.get("variant")
+                        rr = rest
+                        if rr and rr[0].startswith("@"):
+                            if var is not None and rr[0][1:] != var:
+                                continue          # a different variant: this definition is not the one projected
+                            rr = rr[1:]
+                        if rr and rr[0].startswith(".") and rr[0][1:] in fields:
+                            operand(ops[fields.index(rr[0][1:])], rr[1:])
+                        else:
+                            for o in ops:
+                                operand(o, ())
+                elif r == "discr":
+                    work.append((rv["p"][0], ()))
+                else:
+                    for o in ops:
+                        operand(o, ())
+            for bi, t in cdefs.get(l, ()):
+                callee = t["fn"].get("res") or t["fn"].get("def") or "?"
+                short = callee.rsplit("::", 1)[-1]
+                a0 = t["args"][0] if t["args"] else None
+                if a0 is not None and op_local(a0) is not None and short in self.PASS_THROUGH and not t.get("inlined"):
+                    pl = a0.get("c") or a0.get("m")
+                    base = norm(pl[1:])
+                    if short == "branch":
+                        if pd[:1] == ("@Break",):
+                            continue
+                        w = wrap(pl[0]) if not base else None
+                        if pd[:2] == ("@Continue", ".0") and w:
+                            work.append((pl[0], base + w + pd[2:]))
+                        else:
+                            work.append((pl[0], base))
+                    elif short in ("unwrap", "expect"):
+                        w = wrap(pl[0]) if not base else None
+                        work.append((pl[0], base + (w + pd if w else ())))
+                    else:
+                        work.append((pl[0], base + pd))
+                    continue
+                if t.get("inlined"):
+                    continue                      # the body's own result reaches the destination through the copy block
+                if short == "from_residual" and pd[:1] in (("@Ok",), ("@Some",), ("@Continue",)):
+                    continue                      # `?` hands on the error: never the success payload asked for
+                out.add(("call", bi))
+        return out
+
     def named_locals(self, name):
         """locals bound to a user variable called `name` (any scope)"""
         out = []
